@@ -20,7 +20,7 @@ META = {
                    "declared fields; the branches on cython.compiled are inventoried (exactly the three documented ones). Seed "
                    "independence: every iteration over a set-typed value in tasks.py/sorting.py whose order reaches an order-sensitive "
                    "sink is inventoried and either benign with a stated reason or a finding; the DFS shares one visited set across start "
-                   "vertices (so the result is a valid order for any start order).",
+                   "vertices (so the result is a valid order for any start order). _hash is assigned on every completed path of __cinit__ (an unassigned C field reads 0 when compiled and raises in pure Python).",
     "decides": "order-independence of the __cinit__ chain, absence of new build-dependent branches, inventory of unordered-to-ordered flows",
     "not_decided": "equality of transcripts across the two builds and across seeds (needs both builds to run)",
     "assumptions": ["dict/RefCount iteration is insertion ordered (language guarantee); set iteration order depends on the hash seed"],
